@@ -454,7 +454,7 @@ Qed.
 
 Lemma finish_shape_correct : forall wm iv c, wf_contents c ->
   shapes (finish_trace wm iv c) =
-  finish_shape wm iv (c_H c) (c_H c + length (c_vocab1 c)) (length (c_search1 c)) (length (c_words c)).
+  finish_shape wm iv (c_H c) (c_H c + length (c_vocab1 c)) (c_pad c) (length (c_search1 c)) (length (c_words c)).
 Proof.
   intros wm iv c (_ & _ & H3 & H4 & H5).
   unfold finish_trace, finish_trace_gen, finish_shape, body_trace, sync_trace, header_op, tail_trace.
@@ -465,7 +465,7 @@ Qed.
 (* the hypotheses are satisfiable and the loader is not trivially rejecting: a small complete build loads,
    the same build cut before the header does not *)
 Definition ex_contents : contents :=
-  {| c_H := 128; c_vocab1 := repeat 7 8; c_vocab2 := repeat 7 8; c_search1 := repeat 9 16; c_search2 := repeat 9 16;
+  {| c_H := 128; c_vocab1 := repeat 7 8; c_vocab2 := repeat 7 8; c_pad := 3; c_search1 := repeat 9 13; c_search2 := repeat 9 13;
      c_words := unk6 ++ [97; 0];
      c_header := ref_sanity ++ [2; 0; 0; 0; 0; 0; 192; 63; 0; 0; 0; 0; 1; 0; 0; 0; 1; 0; 0; 0] ++ repeat 0 20 |}.
 Definition ex_cfg : loader_cfg := {| l_model_type := 0; l_search_version := 1; l_enumerate := true |}.
